@@ -98,10 +98,12 @@ def fuzz_attr(rng):
     return " ".join(toks)
 
 
-def fuzz_fn(rng, name):
-    n = rng.randint(0, 5)
+def fuzz_fn(rng, name, no_deps=False):
+    n = rng.randint(1, 3) if no_deps else rng.randint(0, 5)
     ps = [rng.choice(PATTERNS).replace("NAME", name) for _ in range(n)]
     first = rng.choice(["deps: &D", "deps: &D", "deps: &impl Sized", "deps: D", rng.choice(SELF_FORMS), "", "deps: &Concrete"])
+    if no_deps and rng.random() < 0.8:
+        first = ""
     params = ", ".join([p for p in [first] + ps if p])
     q = rng.choice(["", "", "async ", "unsafe ", "extern \"C\" ", "pub "])
     g = "<D>" if "D" in first.split(":")[-1].replace("Debug", "") and "impl" not in first else ""
@@ -133,7 +135,7 @@ def gen(n, rng):
         elif r < 0.7:
             name = rng.choice(["foo", "r#match", "arg1", "x", "r#type"])
             a = rng.choice(["Foo", "pub Foo", "Foo, no_deps", "Foo, mock_api = M, unimock", "Foo, ?Send", "Foo, export, mockall"])
-            src = "#[::entrait::%s(%s)] /*@inv*/\n%s\n" % (macro, a, fuzz_fn(rng, name))
+            src = "#[::entrait::%s(%s)] /*@inv*/\n%s\n" % (macro, a, fuzz_fn(rng, name, no_deps="no_deps" in a))
             meta = {"family": "fn-patterns"}
         elif r < 0.85:
             a = rng.choice(["", "FImpl, delegate_by = DelegateF", "FImpl, delegate_by = ref", "delegate_by = ref", "delegate_by = Borrow",
